@@ -17,7 +17,7 @@ MANIFEST = {
  'technique': 'Lean 4 proof (list induction, case analysis over the reply flags) + table extraction + differential correspondence + live command sweep',
  'design_ref': 'DESIGN.md §6 C06',
 }
-THEOREMS = ['C06.out_tables_ok', 'C06.ctor_line', 'C06.reply_line', 'C06.truncate_bound_bytes', 'C06.truncate_keeps_line',
+THEOREMS = ['C06.out_tables_ok', 'C06.ctor_line', 'C06.reply_line', 'C06.reply_never_asserts', 'C06.truncate_bound_bytes', 'C06.truncate_keeps_line',
             'C06.take_line', 'C06.cut_is_prefix', 'C06.utf8Len_eq', 'C06.copy_bypasses_assertion']
 TRUSTED = ['Lean 4.33.0 kernel; axioms ⊆ {propext, Classical.choice, Quot.sound}',
            'harness/extractors/out.py (MAX_LINE_SIZE, isValidArgument characters, _truncateMsg shape, raw-construction inventory → Gen/Out.lean)',
@@ -310,12 +310,13 @@ def explore(b, stream, na, nb, nd, budget_c, max_c):
     return groups, cstats
 
 def run(ctx):
-    import threading
+    import threading, warnings
     threading.excepthook = lambda args: None
+    warnings.filterwarnings('ignore', category=SyntaxWarning)
     build = leanbuild.ensure(PROPERTY, THEOREMS, thorough=ctx.thorough, extractors=['Out', 'IrcMsgs'])
     b = get_bot(ctx.thorough)
     scale = 12 if ctx.thorough else 1
-    groups, cstats = explore(b, 'c06', 6000 * scale, 6000 * scale, 3000 * scale, 35 * scale, 4000 * scale)
+    groups, cstats = explore(b, 'c06', 6000 * scale, 6000 * scale, 3000 * scale, 45 * scale, 9000 * scale)
     cases = []
     for cs, ls in groups:
         if build.driver_ok:
